@@ -103,7 +103,7 @@ AllocNode ==
            ELSE IF node = ldp THEN ldp' = prev /\ UNCHANGED ld
            ELSE UNCHANGED <<ld, ldp>>
         /\ UNCHANGED crash
-  /\ hist' = Append(hist, [op |-> "an", k |-> 0])
+  /\ hist' = Append(hist, [op |-> "an", k |-> 0, res |-> GetOther(mem, BA, NULL)])
 
 (* xor_list_search_array *)
 RECURSIVE Search(_, _, _, _, _, _, _)
@@ -131,7 +131,7 @@ AllocArray(h) ==
                  ELSE IF ldp = ilast THEN ldp' = iprev /\ UNCHANGED ld
                  ELSE UNCHANGED <<ld, ldp>>
               /\ UNCHANGED crash
-  /\ hist' = Append(hist, [op |-> "aa", k |-> h])
+  /\ hist' = Append(hist, [op |-> "aa", k |-> h, res |-> Search(mem, BA, GetOther(mem, BA, NULL), GetOther(mem, BA, NULL), GetOther(mem, GetOther(mem, BA, NULL), BA), 1, CeilHalf(h))[2]])
 
 (* deallocate(ptr) and deallocate(ptr, n): xor_list_insert / xor_link_block at find_pos *)
 Dealloc(a) ==
@@ -149,7 +149,7 @@ Dealloc(a) ==
                  m3 == Change(m2, p[2], p[1], a.first + back - 1)
              IN /\ mem' = m3 /\ cap' = cap + back /\ live' = live \ {a}
                 /\ ld' = a.first /\ ldp' = p[1] /\ UNCHANGED crash
-  /\ hist' = Append(hist, [op |-> "da", k |-> Rank(a)])
+  /\ hist' = Append(hist, [op |-> "da", k |-> Rank(a), res |-> -1])
 
 Next == AllocNode \/ (\E h \in 3..MaxHalves : AllocArray(h)) \/ (\E a \in live : Dealloc(a))
 Spec == Init /\ [][Next]_vars
